@@ -68,6 +68,16 @@ func VerifH_healthz() {
 		own.Selector = "grpc.health.v1.Health.Check"
 		sc.Http = &annotations.Http{Rules: []*annotations.HttpRule{own}}
 	}
+	otherConfig := vfBool()
+	if otherConfig {
+		// another configuration, built with AddHealthz earlier and extended afterwards, must not leak
+		// into this one
+		other := &serviceconfig.Service{}
+		lhealth.AddHealthz(other)
+		leak := vfHTTPRule("GET", "/leak/check")
+		leak.Selector = "grpc.health.v1.Health.Check"
+		other.Http.Rules = append(other.Http.Rules, leak)
+	}
 	lhealth.AddHealthz(sc)
 	mux, err := NewMux(ServiceConfigOption(sc), FilesOption(vfRegistry(svc)))
 	if err != nil {
@@ -103,6 +113,15 @@ func VerifH_healthz() {
 	probeOwn := userRule && vfBool()
 	if probeOwn {
 		path = "/own/check"
+	}
+	if otherConfig && !probeOwn && vfBool() {
+		r := &http.Request{Method: "GET", URL: &url.URL{Path: "/leak/check"}, Header: http.Header{},
+			Body: vfNopCloser{&vfWholeReader{}}, ProtoMajor: 1, ProtoMinor: 1}
+		w := newFakeRW()
+		mux.ServeHTTP(w, r)
+		vfCheck(br.calls == 0 && w.status == 404, "a rule added to ANOTHER service config is bound in this mux")
+		vfCover("other-config-does-not-leak")
+		return
 	}
 	query := ""
 	if len(ask) > 0 {
